@@ -222,10 +222,44 @@ def _mutdefault(ctx):
     ctx.floor("mutable default arguments", n_defaults, 0)
 
 
+def _import_time_inits(ctx):
+    """
+    {qual: [(Mod, Call, [specialised statements])]} — top-level functions whose only references are module-level
+    calls in their own module and whose body partially evaluates to straight-line statements for those calls:
+    they run once per import, exactly like the module-level statements a maintainer extracted them from, so
+    their writes are import-time writes (C10.crossmod decides them), not call-history state (C10.modstate).
+    """
+    cached = getattr(ctx, "_c10_inits", None)
+    if cached is not None:
+        return cached
+    from ..core import RefGraph
+    from ..region import import_time_calls, specialise
+
+    index = ctx.index
+    graph = RefGraph(index)
+    out = {}
+    for f in index.nontest_funcs():
+        if f.outer is not None or f.cls is not None:
+            continue
+        calls = import_time_calls(index, graph, f)
+        if not calls or any(m is not f.mod for m, _c in calls):
+            continue
+        spec = [(m, c, specialise(f, c)) for m, c in calls]
+        if any(st is None for _m, _c, st in spec):
+            continue
+        out[f.qual] = spec
+    ctx._c10_inits = out
+    return out
+
+
 def _modstate(ctx):
     index = ctx.index
     n = 0
+    inits = _import_time_inits(ctx)
+    ctx.count("import_time_only_initialiser_functions", len(inits))
     for f in index.nontest_funcs():
+        if f.qual in inits:
+            continue  # runs at import only: its writes are decided by C10.crossmod
         m = f.mod
         declared_global = set()
         for x in iter_own(f.node):
@@ -444,7 +478,10 @@ def _shared_nested(ctx):
                             depth[key] = d0 + extra
                             changed = True
     n_sites = 0
+    inits = _import_time_inits(ctx)
     for f in funcs:
+        if f.qual in inits:
+            continue
         for n in iter_own(f.node):
             if not isinstance(n, (ast.Assign, ast.AnnAssign)) or n.value is None:
                 continue
@@ -578,9 +615,21 @@ def _crossmod(ctx):
     index = ctx.index
     env = ModuleEnv(index)
     n = 0
+    inits = _import_time_inits(ctx)
     for name in index.nontest_modules():
         m = index.modules[name]
+        stmts = []
         for s in m.tree.body:
+            stmts.append(s)
+            # NAME = init() / init(): the statements the import-time-only initialiser executes for this call
+            c = getattr(s, "value", None) if isinstance(s, (ast.Expr, ast.Assign, ast.AnnAssign)) else None
+            if isinstance(c, ast.Call):
+                for m2, c2, spec in inits.get(index.callee(m, c, None) or "", ()):
+                    if c2 is c:
+                        for st in spec:
+                            ast.copy_location(st, s)
+                            stmts.append(st)
+        for s in stmts:
             call = s.value if isinstance(s, ast.Expr) and isinstance(s.value, ast.Call) else None
             target = None
             pairs_node = None
